@@ -129,29 +129,6 @@ fn c14_subnet_single_v6() {
     let expect = (f.check_source && v6_in(&net, s)) || (f.check_destination && v6_in(&net, d));
     assert!(f.matches(&IpAddr::V6(s), &IpAddr::V6(d)) == expect);
 }
-#[kani::proof]
-#[kani::unwind(20)]
-fn c14_subnet_matches() {
-    let p4: u8 = kani::any(); kani::assume(p4 <= 32);
-    let p4b: u8 = kani::any(); kani::assume(p4b <= 32);
-    let p6: u8 = kani::any(); kani::assume(p6 <= 128);
-    let n4 = match kani::any::<u8>() % 3 {
-        0 => Vec::new(),
-        1 => vec![Ipv4Network::new(any_v4(), p4).unwrap()],
-        _ => vec![Ipv4Network::new(any_v4(), p4).unwrap(), Ipv4Network::new(any_v4(), p4b).unwrap()],
-    };
-    let n6 = if kani::any() { Vec::new() } else { vec![Ipv6Network::new(any_v6(), p6).unwrap()] };
-    let f = SubnetFilter { ipv4_subnets: n4, ipv6_subnets: n6, check_source: kani::any(), check_destination: kani::any() };
-    let (s, d) = (any_ip(), any_ip());
-    let inside = |ip: &IpAddr| -> bool {
-        match ip {
-            IpAddr::V4(a) => { let mut r = false; let mut i = 0; while i < f.ipv4_subnets.len() { if v4_in(&f.ipv4_subnets[i], *a) { r = true; } i += 1; } r }
-            IpAddr::V6(a) => { let mut r = false; let mut i = 0; while i < f.ipv6_subnets.len() { if v6_in(&f.ipv6_subnets[i], *a) { r = true; } i += 1; } r }
-        }
-    };
-    let expect = (f.check_source && inside(&s)) || (f.check_destination && inside(&d));
-    assert!(f.matches(&s, &d) == expect);
-}
 // Composition is checked for ARBITRARY sub-filter answers: the three `matches` functions are
 // replaced (kani::stub) by functions of their arguments that the harness can steer to any of the
 // 2^3 answer combinations; their own semantics are the obligations above.
